@@ -195,8 +195,8 @@ def _opt(code, value):
     return struct.pack("<HH", code, len(value)) + _pad4(value)
 
 
-def _ip_tcp(payload, rng, sport, dport, seq):
-    tcp = struct.pack(">HHIIBBHHH", sport, dport, seq & 0xFFFFFFFF, 0, 5 << 4, 0x18, 65535, 0, 0)
+def _ip_tcp(payload, rng, sport, dport, seq, flags=0x18):
+    tcp = struct.pack(">HHIIBBHHH", sport, dport, seq & 0xFFFFFFFF, 0, 5 << 4, flags, 65535, 0, 0)
     total = 20 + len(tcp) + len(payload)
     ip = struct.pack(">BBHHHBBH4s4s", 0x45, 0, total, rng.randrange(65536), 0x4000, 64, 6, 0,
                      bytes((127, 0, 0, 1)), bytes((127, 0, 0, 1)))
@@ -234,10 +234,24 @@ def write_pcapng(messages, rng, noise=True, ether=None, mixed=None, pad=0):
     ts = rng.randrange(1 << 40)
     runts = 0
 
+    psh = rng.random() < 0.6 if noise else True          # capture writers differ: PSH|ACK or ACK only on data segments
+    two_way = noise and rng.random() < 0.5                  # responses travel the other way (own sequence numbers) or not
+    seq_back = rng.randrange(1 << 32)
+    clock_steps = noise and rng.random() < 0.25             # the capture clock is stepped back now and then
+    n_pkt = 0
+
     def packet(payload):
-        nonlocal out, seq, ts
-        pkt = _ip_tcp(payload, rng, 40000, 2321, seq)
-        seq += len(payload)
+        nonlocal out, seq, ts, seq_back, n_pkt
+        back = two_way and n_pkt % 2 == 1
+        n_pkt += 1
+        if back:
+            pkt = _ip_tcp(payload, rng, 2321, 40000, seq_back, 0x18 if psh else 0x10)
+            seq_back += len(payload)
+        else:
+            pkt = _ip_tcp(payload, rng, 40000, 2321, seq, 0x18 if psh else 0x10)
+            seq += len(payload)
+        if clock_steps and rng.random() < 0.3:
+            ts -= rng.randrange(1, 10 ** 7)
         iface = rng.randrange(2) if mixed else 0
         eth = ether if iface == 0 else not ether
         if eth:
